@@ -76,7 +76,8 @@ Definition near_tie (cfg : config) (r : wres) (lastPass now : Z) (u : Q) : bool 
 Definition result_eqb (a b : result) : bool :=
   match a, b with
   | RNil, RNil | RUnavailable, RUnavailable | RErrU, RErrU | RErrA, RErrA
-  | RPanic, RPanic | RFallback, RFallback | RCtxDone, RCtxDone | ROther, ROther => true
+  | RPanic, RPanic | RFallback, RFallback | RCtxDone, RCtxDone | ROther, ROther
+  | RErrSUW, RErrSUW | RDeadline, RDeadline | RPanicSU, RPanicSU => true
   | _, _ => false
   end.
 
@@ -318,7 +319,11 @@ Definition pcheck (cfg : config) (g : geom) (p : pstate) (c : call) (o : iobs) :
     (* the window accept() read is the reference window *)
     let pre_ok := (w_accepts h =? x_pacc o) && (w_total h =? x_ptot o) &&
                   (w_failing h =? x_pfailing o) && (w_working h =? x_pworking o) in
-    let was_rejected := match x_res o with RUnavailable | RFallback => true | _ => false end in
+    (* Was the call rejected?  Read off what only a rejection / an admission can show: a Do*
+       call was admitted iff its request ran; Allow was admitted iff it returned nil.  The
+       returned VALUE does not tell: the request of an admitted call may itself return
+       ErrServiceUnavailable (a nested breaker that is open) or the fallback's value. *)
+    let was_rejected := if is_allow e then negb (result_eqb (x_res o) RNil) else (x_req o =? 0) in
     if was_rejected then
       let log' := ref_record g (p_log p) now v_drop in
       let ok := pre_ok &&
@@ -366,7 +371,7 @@ Definition seq_prop_ok (c : case) : bool :=
    its start action) and T2 (per call, and window sums after every action), from the
    observations only.  Whether a call was rejected at its start is read off its result. *)
 Definition t_rejected (o : tobs) : bool :=
-  (t_state o =? 2) && match t_res o with RUnavailable | RFallback => true | _ => false end.
+  (t_state o =? 2) && (t_req o =? 0) && match t_res o with RUnavailable | RFallback => true | _ => false end.
 
 Definition dummy_tobs : tobs := mkT 0 ROther 0 0 false.
 
